@@ -15,7 +15,7 @@ import os, subprocess, sys
 ENVLINE = ("export PATH=/root/go/pkg/mod/golang.org/toolchain@v0.0.1-go1.24.9.linux-amd64/bin:$PATH "
            "GOTOOLCHAIN=local GOFLAGS=-mod=mod GOPROXY=off GOSUMDB=off GOWORK=off")
 
-TEMPLATE = """You are working in a scratch git worktree at {wt} of the Go repository lightninglabs/lightning-node-connect ("Lightning Node Connect": a Noise/SPAKE2 encrypted gRPC transport tunnelled over a mailbox relay, with its own Go-Back-N reliable-delivery protocol). The two Go modules that matter are gbn/ (Go-Back-N) and mailbox/ (Noise handshake, record layer, mailbox connections). Work ONLY inside {wt} . Never read or touch /repo or /verif (do not look at them).
+TEMPLATE = """You are working in a scratch git worktree at {wt} of the Go repository lightninglabs/lightning-node-connect ("Lightning Node Connect": a Noise/SPAKE2 encrypted gRPC transport tunnelled over a mailbox relay, with its own Go-Back-N reliable-delivery protocol). The two Go modules that matter are gbn/ (Go-Back-N) and mailbox/ (Noise handshake, record layer, mailbox connections). Work ONLY inside {wt} . Never read or touch /repo or /verif (do not look at them). NEVER use `git stash` (the stash is shared between all worktrees of this repository and other engineers work in sibling worktrees); keep your edits as patch files instead.
 
 Every shell command must start with this environment line (the sandbox is offline):
 {env}
@@ -26,7 +26,7 @@ YOUR TASK: you are a maintainer doing clean-up work on these NON-TEST source fil
    {files}
 Write SIX different, independent, STRICTLY BEHAVIOUR-PRESERVING changes to them, the kind of edits that show up in ordinary maintenance pull requests. The program must behave exactly as before for every input, every schedule and every error path: same bytes on the wire, same return values and errors (same error identity where callers could compare), same ordering of side effects that another goroutine or the peer can observe, same locking, same blocking behaviour, same timer behaviour. Read the code carefully before each edit and convince yourself that it is an exact equivalence, not "almost" one: an edit that changes behaviour in a corner case is a FAILURE of this task.
 
-Use a VARIETY of kinds, each patch a different kind and (as far as the files allow) a different function. Ideas:
+{focus}Use a VARIETY of kinds, each patch a different kind and (as far as the files allow) a different function. Ideas:
  - extract a block into a helper function or method (or inline a small helper into its only caller)
  - restructure control flow: if/else <-> early return, switch <-> if chain, invert a condition and swap the branches, merge/split nested ifs, `for {{ select ... }}` reshaped with labelled continue/break, loop with index <-> range
  - introduce a local variable for a repeated expression that nothing can change in between, or remove one
@@ -58,7 +58,17 @@ def main():
         subprocess.run(f"git -C /repo worktree remove --force {wt}", shell=True, capture_output=True)
         r = subprocess.run(f"git -C /repo worktree add -q {wt} HEAD", shell=True, capture_output=True, text=True)
         assert r.returncode == 0, r.stderr
-        txt = TEMPLATE.format(wt=wt, env=ENVLINE, files=", ".join(files.split(",")))
+        focus = ""
+        if os.environ.get("BENIGN_FOCUS") == "structural":
+            focus = ("THIS ROUND concentrates on STRUCTURAL refactorings (earlier rounds already covered local renames, literals->constants and simple control-flow flips; do not spend patches on those): "
+                     "(1) rename an unexported function or method consistently (all callers, comments); (2) INLINE an existing small unexported helper into its caller(s) and delete it; "
+                     "(3) extract a multi-statement block with early returns into a new method that returns (value, error) or a bool; (4) split a long function into two sequential helpers; "
+                     "(5) add a parameter to an unexported function and pass the value the function used to read from a field or compute itself (same value, provably unchanged in between); "
+                     "(6) move a function or type to another file of the same package; (7) change an unexported method with value semantics into a plain function taking the receiver as first argument (or the reverse); "
+                     "(8) replace a closure that captures variables by a small struct with a method, or a goroutine body closure by a named method started with `go`; "
+                     "(9) merge two sibling functions that differ in one constant into one parameterised helper plus two thin wrappers; (10) replace manual lock/unlock pairs by a helper `withLock(func())` ONLY where exactly equivalent. "
+                     "At least four of your six patches must be of these structural kinds. ")
+        txt = TEMPLATE.format(wt=wt, env=ENVLINE, files=", ".join(files.split(",")), focus=focus)
         open(os.path.join(wt, "PROMPT.txt"), "w").write(txt)
         print(wt)
 
